@@ -417,7 +417,10 @@ class Differ:
                     lhs_parent=lhs, lhs_iteration=idx,
                     rhs_parent=rhs, rhs_iteration=idx,
                     parentref=idx)
-            elif lele != rele:
+            elif not lele == rele:
+                # Deliberately not `!=`:  ruamel.yaml's CommentedMap defines
+                # `==` without regard for key order yet inherits an order-
+                # sensitive `!=`, so two Hashes can be both == and !=.
                 self._diffs.append(
                     DiffEntry(
                         DiffActions.CHANGE, next_path, lele, rele,
